@@ -18,6 +18,15 @@ Definition check_fcase (c : fcase) : bool :=
   let '(s', r) := F_w_solve_t (f_fm c) (f_desc c) (f_opts c) (f_t c) (f_state c) in
   state_eqb s' (fx_state c) && out_eqb r (fx_out c).
 
+(* FortranEngine._evaluate(t) at a period the index tests reject (codes 11 - 14): equations block irrelevant *)
+Definition F_w_evaluate := w_evaluate float (fun _ v => v).
+Record gcase := mkG { g_fm : fmod; g_t : Z; g_state : fstate; gx_state : fstate; gx_out : outcome unit }.
+Definition outu_eqb (a b : outcome unit) : bool :=
+  match a, b with Ret _, Ret _ => true | Raise x, Raise y => exn_eqb x y | _, _ => false end.
+Definition check_gcase (c : gcase) : bool :=
+  let '(s', r) := F_w_evaluate (g_fm c) (g_t c) (g_state c) in
+  state_eqb s' (gx_state c) && outu_eqb r (gx_out c).
+
 Inductive kcase2 : Type := K1 (c : kcase) | KF (c : fcase).
 Definition check_kcase2 (c : kcase2) : bool :=
   match c with K1 c => check_kcase c | KF c => check_fcase c end.
@@ -62,10 +71,11 @@ Definition check_ecase (c : ecase) : bool :=
 Definition hyp_ok (prog : fprogram) (d : mdesc) : bool :=
   (prog_lags float prog <=? lags d)%nat && (prog_leads float prog <=? leads d)%nat.
 
-Inductive kcase3 : Type := K2 (c : kcase2) | KE (c : ecase).
+Inductive kcase3 : Type := K2 (c : kcase2) | KE (c : ecase) | KG (c : gcase).
 Definition check_kcase3 (c : kcase3) : bool :=
   match c with
   | K2 (K1 (KS c)) => check_scase c && hyp_ok (s_prog c) (s_desc c)
   | K2 c => check_kcase2 c
   | KE c => check_ecase c && hyp_ok (e_prog c) (e_desc c)
+  | KG c => check_gcase c
   end.
